@@ -278,9 +278,17 @@ class Scheduler(object):
             raise
         self.current = first
         first.sem.release()
+        import os as _os
+        timeout = float(_os.environ.get("VF_TIMEOUT", timeout))
         if not self.driver_sem.acquire(timeout=timeout):
+            import traceback
+            where = ""
+            frames = sys._current_frames()
+            for t in self.threads:
+                if not t.done and t.waiting is None and t.real is not None and t.real.ident in frames:
+                    where += "\n--- %s is at:\n%s" % (t.name, "".join(traceback.format_stack(frames[t.real.ident])[-14:]))
             self.aborted = True
-            raise HarnessStuck("execution did not reach quiescence within %ss; threads=%r" % (timeout, self.threads))
+            raise HarnessStuck("execution did not reach quiescence within %ss; threads=%r%s" % (timeout, self.threads, where))
         st, err = self.end_status
         if st == "error":
             raise err
